@@ -4,7 +4,7 @@
 From Coq Require Import String List NArith Bool Lia.
 From J5V.lib Require Import Outcome Corr.
 From J5V.model Require Import J5sAst Desc J5sWalk J5sLink J5sConvert J5sContract J5sValid.
-From J5V.proofs Require Import J5sProofs J5sContractProofs J5sLinkProofs J5sServiceProofs J5sTotalProofs.
+From J5V.proofs Require Import J5sProofs J5sContractProofs J5sLinkProofs J5sServiceProofs J5sTotalProofs J5sSymbolProofs.
 Import ListNotations.
 Local Open Scope N_scope.
 
@@ -380,14 +380,15 @@ Proof.
   destruct IH as [r' Hr]; [intros df Hd; apply H; right; exact Hd|]. rewrite Hr. cbn [obind]. eexists; reflexivity.
 Qed.
 
-Lemma valid_files bd : valid_bundle snake camel bd = true -> forall f, In (BJ f) bd -> valid_file snake camel bd f = true.
+Lemma valid_files bd : valid_bundle snake camel screaming bd = true -> forall f, In (BJ f) bd -> valid_file snake camel bd f = true.
 Proof.
   unfold valid_bundle. intros H f Hf. apply andb_true_iff in H. destruct H as [H _].
+  apply andb_true_iff in H. destruct H as [H _].
   apply andb_true_iff in H. destruct H as [H _]. rewrite forallb_forall in H. exact (H _ Hf).
 Qed.
 
 Lemma convert_package_links bd pkg D :
-  valid_bundle snake camel bd = true ->
+  valid_bundle snake camel screaming bd = true ->
   convert_package snake camel screaming bd pkg = Ok D -> forall df, In df D -> links df.
 Proof.
   unfold convert_package. intros Hv H. destruct (pkg_files bd pkg) as [|x r] eqn:E; [discriminate|].
@@ -444,8 +445,38 @@ Proof.
   - rewrite Hp. unfold J5sConvert.mem_str. cbn [existsb]. rewrite str_eqb_refl. reflexivity.
 Qed.
 
+(* the symbol clause of validity *)
+Lemma nodup_str_app_r a c : nodup_str (a ++ c) = true -> nodup_str c = true.
+Proof. induction a as [|x r IH]; cbn; [auto|]. intros H. apply andb_true_iff in H. destruct H. auto. Qed.
+
+Lemma nodup_str_app_l a c : nodup_str (a ++ c) = true -> nodup_str a = true.
+Proof.
+  induction a as [|x r IH]; cbn; [reflexivity|]. intros H. apply andb_true_iff in H. destruct H as [H1 H2].
+  apply andb_true_iff. split; [|auto]. rewrite existsb_app in H1. apply negb_true_iff in H1.
+  apply orb_false_iff in H1. destruct H1 as [H1 _]. rewrite H1. reflexivity.
+Qed.
+
+Lemma nodup_str_flat_map {A} (g : A -> list str) l x :
+  In x l -> nodup_str (flat_map g l) = true -> nodup_str (g x) = true.
+Proof.
+  induction l as [|y r IH]; [destruct 1|]. intros [<-|Hin] H; cbn [flat_map] in H.
+  - eapply nodup_str_app_l. exact H.
+  - apply IH; [exact Hin|]. eapply nodup_str_app_r. exact H.
+Qed.
+
+Lemma valid_symbols bd pkg fs :
+  valid_bundle snake camel screaming bd = true -> In pkg (bundle_pkgs bd) ->
+  convert_package snake camel screaming bd pkg = Ok fs ->
+  nodup_str (package_symbols bd pkg fs) = true.
+Proof.
+  unfold valid_bundle. intros H Hin Hfs. apply andb_true_iff in H. destruct H as [H _].
+  apply andb_true_iff in H. destruct H as [_ H]. rewrite forallb_forall in H. specialize (H _ Hin).
+  apply andb_true_iff in H. destruct H as [H _]. unfold symbols_ok in H.
+  rewrite (package_symbols_declared snake camel screaming _ _ _ Hfs). exact H.
+Qed.
+
 Theorem link_closure_total bd :
-  valid_bundle snake camel bd = true ->
+  valid_bundle snake camel screaming bd = true ->
   forall fuel todo done, (pending bd done < fuel)%nat ->
   link_closure snake camel screaming fuel bd todo done = Ok tt.
 Proof.
@@ -464,6 +495,11 @@ Proof.
   destruct Hmain as (df & Hd & Hpath).
   destruct (find (fun f => str_eqb (fl_path f) p) fs) as [f|] eqn:Efind.
   - apply find_some in Efind. destruct Efind as [Hfin _].
+    assert (Hsym : nodup_str (file_symbols f) = true).
+    { eapply nodup_str_flat_map; [exact Hfin|]. eapply nodup_str_app_r.
+      apply (valid_symbols bd (j5s_pkg j) fs Hv); [|exact Hfs].
+      unfold bundle_pkgs. change (j5s_pkg j) with (bfile_pkg (BJ j)). apply in_map. exact Hin. }
+    rewrite Hsym.
     destruct (convert_package_links bd _ _ Hv Hfs f Hfin) as [f' Hf']. rewrite Hf'. cbn [obind].
     apply IH. pose proof (pending_decreases bd done p j Hin Hp Hm). lia.
   - exfalso. pose proof (find_none _ _ Efind df Hd) as Hn. cbn beta in Hn. rewrite Hpath, str_eqb_refl in Hn. discriminate.
@@ -474,11 +510,14 @@ Proof. unfold pending. induction bd as [|x r IH]; cbn; [lia|]. destruct (match x
 
 (* PackageSet.CompilePackage accepts every package of a valid bundle *)
 Theorem compile_total bd pkg :
-  valid_bundle snake camel bd = true -> (exists f, In f bd /\ bfile_pkg f = pkg) ->
+  valid_bundle snake camel screaming bd = true -> (exists f, In f bd /\ bfile_pkg f = pkg) ->
   exists D, compile_package snake camel screaming bd pkg = Ok D.
 Proof.
   intros Hv Hex. unfold compile_package.
   destruct (convert_package_total snake camel screaming bd pkg Hv Hex) as [fs Hfs]. rewrite Hfs. cbn [obind].
+  assert (Hsym : nodup_str (package_symbols bd pkg fs) = true).
+  { apply (valid_symbols bd pkg fs Hv); [|exact Hfs]. destruct Hex as (f & Hf & <-). unfold bundle_pkgs. apply in_map. exact Hf. }
+  rewrite Hsym. cbn [negb].
   destruct (link_files_total fs (convert_package_links bd pkg fs Hv Hfs)) as [linked Hl]. rewrite Hl. cbn [obind].
   rewrite (link_closure_total bd Hv); [cbn [obind]; eexists; reflexivity|].
   pose proof (pending_le bd (map fl_path fs)). lia.
@@ -487,7 +526,7 @@ Qed.
 (* C02 at full strength for the structural contract: every package of a valid bundle compiles, and
    what it compiles to satisfies the contract *)
 Theorem compile_correct bd pkg :
-  valid_bundle snake camel bd = true -> (exists f, In f bd /\ bfile_pkg f = pkg) ->
+  valid_bundle snake camel screaming bd = true -> (exists f, In f bd /\ bfile_pkg f = pkg) ->
   exists D, compile_package snake camel screaming bd pkg = Ok D /\
             package_contract snake camel screaming bd pkg D.
 Proof.
